@@ -232,6 +232,6 @@ def make_spec(key):
 
 def run(ctx):
     for role in ("server", "client"):
-        ctx.explore(("c24", role, ctx.tier), time_budget=None if ctx.tier == "quick" else 420)
+        ctx.explore(("c24", role, ctx.tier), time_budget=None if ctx.tier == "quick" else 240)
     for form in ("mixed", "str"):
         ctx.explore(("c24", "client", ctx.tier, form), time_budget=None if ctx.tier == "quick" else 200)
